@@ -25,6 +25,7 @@ import numpy as np
 from hypothesis import strategies as st
 
 import jax
+import jax.numpy as jnp
 import tensorflow as tf
 
 import fedjax
@@ -1415,6 +1416,28 @@ def run_row_independence(case):
   dev = float(np.abs(out_p - full[perm]).max())
   require(dev <= tol, 'rows:not_permutation_equivariant',
           lambda: f'{name}: perm {perm}: max abs dev {dev} (tol {tol}, scale {scale})')
+  # The train loss scores rows independently too -- also when the predictions of
+  # the rows live on very different scales (a confident model next to an
+  # untrained one): row i of train_loss(batch, preds) depends on (batch[i],
+  # preds[i]) only.  Predictions are synthetic: the model output, scaled and
+  # shifted per row.
+  if case.get('row_scale'):
+    preds = full.astype(np.float32)
+    for i in range(b):
+      preds[i] = preds[i] * np.float32(case['row_scale'][i % len(case['row_scale'])]) \
+          - np.float32(case['row_shift'][i % len(case['row_shift'])])
+    loss_full = np.asarray(model.train_loss(batch, jnp.asarray(preds)), np.float64)
+    require(loss_full.shape[0] == b and bool(np.isfinite(loss_full).all()),
+            'rows:train_loss_shape_or_not_finite', lambda: f'{name}: {loss_full.shape}')
+    for i in range(b):
+      one = {k: v[i:i + 1] for k, v in batch.items()}
+      li = np.asarray(model.train_loss(one, jnp.asarray(preds[i:i + 1])), np.float64)
+      dev = float(np.abs(li[0] - loss_full[i]).max())
+      lim = 1e-4 * (1.0 + float(np.abs(loss_full[i]).max()))
+      require(dev <= lim, 'rows:train_loss_row_depends_on_rest_of_batch',
+              lambda: f'{name}: row {i} of {b}: loss alone {li[0].tolist()} vs in the batch '
+                      f'{loss_full[i].tolist()} (row scales {case["row_scale"]}, shifts '
+                      f'{case["row_shift"]})')
   rows = batch['x'].reshape(b, -1)
   if len({r.tobytes() for r in rows}) == b:
     return ['rows_distinct']
@@ -1429,6 +1452,9 @@ def row_independence_strategy(draw, tier):
   case = {'model': name, 'B': b, 'perm': list(perm),
           'param_vals': draw(st.lists(st.integers(-8, 8), min_size=3, max_size=16)),
           'stride': draw(_odd)}
+  if draw(st.booleans()):
+    case['row_scale'] = draw(st.lists(st.sampled_from([1, 1, 50, 1000]), min_size=b, max_size=b))
+    case['row_shift'] = draw(st.lists(st.sampled_from([0, 0, 300, 1000]), min_size=b, max_size=b))
   if name.startswith('shakespeare'):
     length = draw(st.sampled_from([3, 6]))
     case['L'] = length
